@@ -44,11 +44,18 @@ def _is_attr(t: T, name: str) -> bool:
     return t.op == "attr" and t.name == name
 
 
-def table_kind(t: T) -> Optional[str]:
+def table_kind(t: T, kc: Optional[str] = None) -> Optional[str]:
     """'nodes' / 'edges' if the term denotes (a restriction of) the node / edge table."""
     seen = 0
     while seen < 30:
         seen += 1
+        if t.op == "ifexp":
+            kt = key_test(t.args[0]) if kc is not None else None
+            if kt is not None:
+                t = t.args[1] if (kt[0] == kc) == kt[1] else t.args[2]
+                continue
+            kinds = {table_kind(t.args[1], kc), table_kind(t.args[2], kc)}
+            return kinds.pop() if len(kinds) == 1 else None
         if t.op == "attr" and t.name in ("nodes", "edges"):
             return t.name
         if t.op == "param" and t.name in ("nodes", "edges", "channel_nodes", "pre_nodes", "post_nodes"):
@@ -73,8 +80,11 @@ def table_kind(t: T) -> Optional[str]:
             t = t.args[0]
             continue
         if t.op == "phi":
-            kinds = {table_kind(a) for a in t.args}
+            kinds = {table_kind(a, kc) for a in t.args}
             return kinds.pop() if len(kinds) == 1 else None
+        if t.op == "mcall" and t.name == "groupby":
+            t = t.args[0]
+            continue
         return None
     return None
 
@@ -132,7 +142,7 @@ class Classifier:
             if n == "_cells_in_view":
                 return Sp("C")
             if n in ("index",):
-                k = table_kind(t.args[0])
+                k = table_kind(t.args[0], kc)
                 if k:
                     return Sp("N" if k == "nodes" else "E")
                 return None
@@ -146,6 +156,11 @@ class Classifier:
             # slot dictionaries
             if self._is_named(base, "external_inds"):
                 return self.slot("external_inds", self._kc_of_key(sel, kc))
+            if sel.op == "const" and sel.name == "indices":
+                sp = self.slot("pstate_indices", kc)
+                if sp is not None and self.slots.get(("pstate_indices.pad", kc)):
+                    sp.sentinel = True
+                return sp
             # column of a table
             col = None
             if base.op == "attr" and base.name in ("loc", "iloc") and sel.op == "tuple" and len(sel.args) == 2:
@@ -153,7 +168,7 @@ class Classifier:
             elif sel.op == "const" and isinstance(sel.name, str):
                 col, tbl = sel, base
             if col is not None and col.op == "const":
-                k = table_kind(tbl)
+                k = table_kind(tbl, kc)
                 if k == "nodes" and col.name in NODE_COLS:
                     return Sp(NODE_COLS[col.name])
                 if k == "edges" and col.name in EDGE_COLS:
@@ -199,6 +214,14 @@ class Classifier:
                     self.space(t.args[1], kc, depth + 1) if len(t.args) > 1 else None)
             if t.name == "mask" and len(t.args) == 2:
                 return Sp("M")
+            if t.name == "apply" and len(t.args) >= 2 and t.args[1].op == "lambda":
+                # grouped.apply(lambda x: x.index.values): row labels of the grouped table
+                body = t.args[1].args[0]
+                if any(x.op == "attr" and x.name == "index" and x.args[0].op == "param" for x in body.walk()):
+                    k = table_kind(t.args[0], kc)
+                    if k:
+                        return Sp("N" if k == "nodes" else "E")
+                return None
             if t.name in ("first", "last", "branch", "lower", "upper") and len(t.args) == 2 and \
                     any(x.op in ("param", "attr") and x.name in ("idx", "_solve_indexer") for x in t.args[0].walk()):
                 return Sp("M")
